@@ -395,6 +395,19 @@ class Repo:
                                     and isinstance(n.value, ast.Attribute) and isinstance(n.value.value, ast.Name) and n.value.value.id == 'self' \
                                     and self.method(c, n.value.attr) is not None:
                                 out.add(t.attr)
+                            # a function of the module, a lambda or a partial application parked the same way
+                            elif isinstance(t, ast.Attribute) and isinstance(t.value, ast.Name) and t.value.id == 'self' and t.attr not in ('pack', 'unpack', 'clone') \
+                                    and ((isinstance(n.value, ast.Name) and (c.module, n.value.id) in self.module_funcs)
+                                         or isinstance(n.value, ast.Lambda)
+                                         or (isinstance(n.value, ast.Call) and (call_name(n.value) or '').split('.')[-1] == 'partial')):
+                                if fi.qual.split('.')[-1] in ('_compile', '_compile_impl', '__init__'):
+                                    out.add(t.attr)
+                        if len(n.targets) == 1 and isinstance(n.targets[0], ast.Tuple) and isinstance(n.value, ast.Tuple) and len(n.targets[0].elts) == len(n.value.elts):
+                            for t, v in zip(n.targets[0].elts, n.value.elts):
+                                if isinstance(t, ast.Attribute) and isinstance(t.value, ast.Name) and t.value.id == 'self' and t.attr not in ('pack', 'unpack', 'clone') \
+                                        and ((isinstance(v, ast.Attribute) and isinstance(v.value, ast.Name) and v.value.id == 'self' and self.method(c, v.attr) is not None)
+                                             or (isinstance(v, ast.Name) and (c.module, v.id) in self.module_funcs) or isinstance(v, ast.Lambda)):
+                                    out.add(t.attr)
         self._mro_cache[key] = out
         return out
 
